@@ -31,6 +31,7 @@ func c13Check(s *hlSim, after string) {
 	}
 	if len(rounds) > 12 {
 		pick := []basics.Round{lo, lo + 1, latest, latest - 1, db, db + 1}
+		pick = append(pick, s.probeRounds...) // first round after each commit of a big flush
 		for i := 0; i < 5; i++ {
 			pick = append(pick, lo+basics.Round(s.r.Uint64n(uint64(latest-lo)+1)))
 		}
@@ -94,9 +95,9 @@ func c13Check(s *hlSim, after string) {
 func TestVerifC13(t *testing.T) {
 	c := kit.Start(t, "C13", "online")
 	defer c.Finish()
-	c.Rule("HL histories rich in keyreg online/offline, short participation keys (expiry inside the run), closes of online accounts, suspensions, balance changes of online accounts and rewards-level changes, under PRNG schedules (forced commits, reloads, reopen) and reduced balance-lookback protocols; after every block and schedule action LookupAgreement(rnd, addr) for every keyed account and OnlineCirculation(rnd, voteRnd) (voteRnd at the key-expiry boundaries ±1) are compared with the reference model for every round of the window [latest−MaxBalLookback, latest] (in memory, at the DB round, and in the online history tables); distinct = distinct (location of the round, length of the account's history) pairs")
+	c.Rule("HL histories rich in keyreg online/offline, short participation keys (expiry inside the run), closes of online accounts, suspensions, balance changes of online accounts and rewards-level changes, under PRNG schedules (forced commits, reloads, reopen, and histories in which a stalled committer makes ONE commit cover more than 500 rounds) and reduced balance-lookback protocols; after every block and schedule action LookupAgreement(rnd, addr) for every keyed account and OnlineCirculation(rnd, voteRnd) (voteRnd at the key-expiry boundaries ±1) are compared with the reference model for every round of the window [latest−MaxBalLookback, latest] (in memory, at the DB round, and in the online history tables); distinct = distinct (location of the round, length of the account's history) pairs")
 	c.Assume("rounds older than latest−MaxBalLookback are outside what consensus asks for and are not judged")
-	nh := c.N(4, 50)
+	nh := c.N(4, 24)
 	blocks := c.N(80, 220)
 	for h := 0; h < nh && c.Violations() < 5; h++ {
 		r := c.Rand(13, uint64(h))
@@ -121,6 +122,36 @@ func TestVerifC13(t *testing.T) {
 		}
 		s.close()
 	}
+	// big-flush histories: a single tracker commit of more than 500 rounds (stalled committer), with
+	// online-account changes in every region of the range, then the same lookups.
+	nbig := c.N(1, 3)
+	for h := 0; h < nbig && c.Violations() < 5; h++ {
+		r := c.Rand(1313, uint64(h))
+		cfg := hlRandomConfig(r)
+		cfg.Profile = "status"
+		s := hlNewSim(t, c, r, cfg)
+		for b := 0; b < 6; b++ {
+			s.step()
+		}
+		c13Check(s, "block")
+		s.bigFlush(840 + r.Intn(40))
+		c13Check(s, "big-flush")
+		for b := 0; b < 8; b++ {
+			s.step()
+			c13Check(s, "block-after-big-flush")
+			if b == 3 {
+				s.flush()
+				c13Check(s, "flush-after-big-flush")
+			}
+		}
+		s.reload()
+		c13Check(s, "reload-after-big-flush")
+		if h == 0 {
+			c.Sample(map[string]any{"big_flush_history": h, "config": cfg.String(), "trace_tail": s.traceTail(14)})
+		}
+		s.close()
+	}
+	c.Require("bigflush.single_commit_over_500_rounds", 1)
 	c.Require("c13.lookup_agreement.history", 100)
 	c.Require("c13.lookup_agreement.db-round", 100)
 	c.Require("c13.online_answers", 200)
